@@ -76,6 +76,8 @@ var reflectNatives = map[string]interface{}{
 	"path.Join":          path.Join, "path.Base": path.Base, "path.Dir": path.Dir, "path.Ext": path.Ext,
 	"path/filepath.Join": filepath.Join, "path/filepath.Base": filepath.Base, "path/filepath.Dir": filepath.Dir,
 	"path/filepath.Ext": filepath.Ext, "path/filepath.Clean": filepath.Clean,
+	"internal/bytealg.IndexByteString": strings.IndexByte, "internal/bytealg.IndexString": strings.Index,
+	"internal/bytealg.CountString": func(s string, c byte) int { return strings.Count(s, string(c)) },
 	"net/url.Parse": url.Parse, "net/url.QueryEscape": url.QueryEscape, "net/url.PathEscape": url.PathEscape,
 }
 
@@ -121,6 +123,7 @@ func init() {
 		"(*regexp.Regexp).MatchString":               natRegexpMatch,
 		"(*encoding/base64.Encoding).DecodeString":   natB64Decode,
 		"(*encoding/base64.Encoding).EncodeToString": natB64Encode,
+		"(*io/fs.PathError).Error": natConstStr("file-system call failed"),
 		"internal/abi.NoEscape": natFirstArg, // identity (escape-analysis hint only)
 		"internal/bytealg.MakeNoZero": natMakeNoZero,
 		"os.Exit":         natFatal,
